@@ -235,7 +235,11 @@ func (self *Core) runInstruction(instruction compiler.Instruction) *value.VmInte
 			fmt.Printf("Memory write access `%v` at %x\n", *v, abs)
 		}
 
-		self.Memory[abs] = v
+		// Every variable owns its storage cell: binding the popped cell itself would alias the variable
+		// with the list element / object field / other variable it was read from.
+		// Scalars are copied this way, while lists and objects still share their contents.
+		cell := *v
+		self.Memory[abs] = &cell
 	case compiler.Opcode_SetGlobImm:
 		i := instruction.(compiler.OneStringInstruction)
 		v := self.pop()
